@@ -61,6 +61,10 @@ structure ThOK (i : Nat) (sh : Sh) (th : Th) (a : Abs) : Prop where
   view : th.viewOK = true
   tvok : ∀ v g, th.tv = some (v, g) → v ≠ .err
 
+/-- `b` is older than `a`; if they conflict, `b` is in the happens-before set of `a`'s thread -/
+def OrdRel (ths : List Th) (a b : Acc) : Prop :=
+  conflict b a = true → ∀ th, ths[a.tid]? = some th → b.id ∈ th.hb
+
 structure Glob (s : State) : Prop where
   m : s.sh.m = true
   norace : s.sh.race = false
@@ -80,6 +84,34 @@ structure Glob (s : State) : Prop where
             (s.sh.w = some i → (∀ x ∈ s.sh.relR, x ∈ th.hb) ∧ (∀ x ∈ s.sh.relW, x ∈ th.hb)) ∧
             (i ∈ s.sh.r → ∀ x ∈ s.sh.relW, x ∈ th.hb)
   own : ∀ a ∈ s.sh.hist, ∀ th, s.ths[a.tid]? = some th → a.id ∈ th.hb
+  ordered : s.sh.hist.Pairwise (OrdRel s.ths)   -- the history is newest first
+  rawNoStore : s.sh.t = .raw → ∀ a ∈ s.sh.hist, (a.f == .t && a.wr && a.atomic) = false
+  noWriteAfterStore : s.sh.hist.Pairwise (fun a b => (b.f == .t && b.wr && b.atomic) = true → a.wr = false)
+
+theorem ordered_mono {ths : List Th} {i : Nat} {th th' : Th} {hist : List Acc}
+    (h : hist.Pairwise (OrdRel ths)) (hth : ths[i]? = some th) (hsub : ∀ x ∈ th.hb, x ∈ th'.hb) :
+    hist.Pairwise (OrdRel (ths.set i th')) := by
+  apply h.imp
+  intro a b hab hc th'' hth''
+  rw [getElem?_set_ite hth] at hth''
+  by_cases hi : i = a.tid
+  · simp only [hi, if_true] at hth''
+    cases hth''
+    exact hsub _ (hab hc th (hi ▸ hth))
+  · simp only [hi, if_false] at hth''
+    exact hab hc th'' hth''
+
+/-- a new access `acc` of thread `i` all of whose conflicting predecessors are in `i`'s new hb -/
+theorem ordered_cons {ths : List Th} {i : Nat} {th th' : Th} {hist : List Acc} {acc : Acc}
+    (h : hist.Pairwise (OrdRel ths)) (hth : ths[i]? = some th) (hsub : ∀ x ∈ th.hb, x ∈ th'.hb)
+    (hacc : acc.tid = i) (hnew : ∀ b ∈ hist, conflict b acc = true → b.id ∈ th'.hb) :
+    (acc :: hist).Pairwise (OrdRel (ths.set i th')) := by
+  refine List.pairwise_cons.mpr ⟨?_, ordered_mono h hth hsub⟩
+  intro b hb hc th'' hth''
+  rw [getElem?_set_ite hth, hacc] at hth''
+  simp only [if_true] at hth''
+  cases hth''
+  exact hnew b hb hc
 
 def ThsOK (pf : Bool) (s : State) : Prop :=
   ∀ i th, s.ths[i]? = some th → ∃ a, safe pf a th.prog = true ∧ ThOK i s.sh th a
